@@ -3,7 +3,7 @@ every function body (after the docstring), an unrelated helper function and impo
 all lines shifted.  Every check must stay silent."""
 import ast, json, os, shutil, subprocess, sys, tempfile
 HERE = os.path.dirname(os.path.dirname(os.path.abspath(__file__)))
-PIDS = ['C%02d' % i for i in range(1, 21) if i != 15]
+PIDS = ['C%02d' % i for i in range(1, 21)]
 MODS = ['api', 'writer', 'core', 'util', 'schema', 'converted_types', 'encoding', 'compression', 'dataframe']
 bad = 0
 for mod in MODS:
